@@ -3,7 +3,8 @@
 import json, os, sys
 ROOT = os.path.dirname(os.path.abspath(__file__))
 sys.path.insert(0, ROOT)
-from props import PROPS
+from props import PROPS as ALLPROPS, REGISTERED
+PROPS = {k: v for k, v in ALLPROPS.items() if k in REGISTERED}
 try:
     from props import NOT_APPLICABLE
 except ImportError:
